@@ -167,6 +167,8 @@ LISTS = [
     ["RE:a.b", "RE:(a|ab)(b|)", "RE:.*/o", "RE:^a$", "RE:a\\.o"],
     ["a\\?b", "a+b", "(a)", "a|b", "{a}", "a.b", "$a", "^a"],
     ["*.o", "*.o.a", "*.", "*.*", "*.?"],
+    # patterns that LOOK like extension patterns (leading '*.') but contain a '/': full-path patterns
+    ["*.a/b", "*.o/*", "a/*.o", "*./a"],
     ["foo bar", " a", "a ", "é", "*.é", "é/*"],
     ["*", "b/*", "*/b", "*/*"],
     ["**/", "a/**", "**/**/a", "***/a"],
